@@ -610,11 +610,7 @@ attrs {
 pub mod protocols { pub mod types { pub use crate::GatherToggle; } }
 /*@ item file=crates/lib/src/protocols/valve/types.rs kind=struct name=GatheringSettings @*/
 /*@ item file=crates/lib/src/protocols/valve/types.rs kind=struct name=Response @*/
-// std::net::SocketAddr and TimeoutSettings are opaque here; constructing the client (socket creation) is foreign code
-#[verifier::external_body]
-pub struct SocketAddr { _p: core::marker::PhantomData<()> }
-#[verifier::external_body]
-pub struct TimeoutSettings { _p: core::marker::PhantomData<()> }
+// std::net::SocketAddr and TimeoutSettings are opaque (contracts/net_model.rs); constructing the client is foreign code
 impl ValveProtocol {
     // assumed: a fresh client has sent nothing yet
     #[verifier::external_body]
